@@ -1,4 +1,4 @@
-import BoxoModel.Lib.AMap
+import BoxoModel.C22.RMap
 /-!
 C22 / C23 — pinning/pinner/dspinner: executable model of the datastore pinner (shared by both properties).
 
@@ -43,10 +43,13 @@ abbrev Idx := List (Nat × Nat)
 
 def pairLt (a b : Nat × Nat) : Bool := a.1 < b.1 || (a.1 == b.1 && a.2 < b.2)
 
-/-- Put of the key `/<enc k>/<enc v>`: the entry appears once, at its place in key order -/
-def Idx.add : Idx → Nat × Nat → Idx
+/-- insertion at the place given by key order -/
+def Idx.ins : Idx → Nat × Nat → Idx
   | [], p => [p]
-  | q :: r, p => if p = q then q :: r else if pairLt p q then p :: q :: r else q :: Idx.add r p
+  | q :: r, p => if pairLt p q then p :: q :: r else q :: Idx.ins r p
+
+/-- Put of the key `/<enc k>/<enc v>`: the entry appears once, at its place in key order -/
+def Idx.add (x : Idx) (p : Nat × Nat) : Idx := if x.contains p then x else x.ins p
 
 def Idx.del (x : Idx) (p : Nat × Nat) : Idx := x.filter (· ≠ p)
 def Idx.search (x : Idx) (k : Nat) : List Nat := (x.filter (·.1 == k)).map (·.2)
@@ -55,7 +58,7 @@ def Idx.hasValue (x : Idx) (k v : Nat) : Bool := x.contains (k, v)
 
 structure Store where
   dirty : Option Nat := none          -- value byte of /pins/state/dirty, `none` = key absent
-  recs : AMap.Map Nat PinRec := []    -- /pins/pin/<id>
+  recs : RMap.Map Nat PinRec := []    -- /pins/pin/<id>
   idxR : Idx := []
   idxD : Idx := []
   idxN : Idx := []
@@ -81,8 +84,8 @@ def Store.setIdx (s : Store) (w : Which) (x : Idx) : Store :=
 
 def Store.apply (s : Store) : Write → Store
   | .putDirty b => { s with dirty := some b }
-  | .putRec id r => { s with recs := AMap.insert s.recs id r }
-  | .delRec id => { s with recs := AMap.erase s.recs id }
+  | .putRec id r => { s with recs := RMap.insert s.recs id r }
+  | .delRec id => { s with recs := RMap.erase s.recs id }
   | .addIdx w k v => s.setIdx w ((s.idx w).add (k, v))
   | .delIdx w k v => s.setIdx w ((s.idx w).del (k, v))
 
@@ -135,18 +138,21 @@ def removePin (s : St) (id : Nat) (pp : PinRec) : St :=
   let s := if pp.name ≠ 0 then s.write (.delIdx .N pp.name id) else s
   s.write (.delRec id)
 
+/-- the repair branch of removePinsWithIDs: delete the index entry of a pin id that has no record -/
+def repairIdx (s : St) (c : Nat) (mode : Option Mode) (id : Nat) : St :=
+  match mode with
+  | some .recursive => s.write (.delIdx .R c id)
+  | some .direct => s.write (.delIdx .D c id)
+  | none => (s.write (.delIdx .R c id)).write (.delIdx .D c id)
+
 /-- removePinsWithIDs(c, mode, ids); `mode = none` is `Any`.  Returns the state and `removed`. -/
 def removeIds (c : Nat) (mode : Option Mode) : List Nat → St → Bool → St × Bool
   | [], s, removed => (s, removed)
   | id :: rest, s, removed =>
-    match AMap.find s.store.recs id with
+    match RMap.find s.store.recs id with
     | none =>
       -- index entry without pin record: repair the index, flush
-      let s := setDirty s
-      let s := match mode with
-        | some .recursive => s.write (.delIdx .R c id)
-        | some .direct => s.write (.delIdx .D c id)
-        | none => (s.write (.delIdx .R c id)).write (.delIdx .D c id)
+      let s := repairIdx (setDirty s) c mode id
       let s := flushPins s
       removeIds c mode rest s true
     | some pp =>
@@ -257,7 +263,7 @@ def isPinned (dag : Dag) (s : St) (c : Nat) : QRes := isPinnedWithType dag s c 5
 def pinName (s : St) (ids : List Nat) : Nat :=
   match ids with
   | [] => 0
-  | id :: _ => match AMap.find s.store.recs id with
+  | id :: _ => match RMap.find s.store.recs id with
     | some pp => pp.name
     | none => 0
 
@@ -314,7 +320,7 @@ def listKeys (s : St) (idx : Idx) (detailed : Bool) : List (Nat × Option PinRec
     | (c, id) :: rest, seen =>
       if seen.contains c then go rest seen
       else if detailed then
-        match AMap.find s.store.recs id with
+        match RMap.find s.store.recs id with
         | some pp => (pp.cid, some pp) :: go rest (c :: seen)
         | none => go rest seen
       else (c, none) :: go rest (c :: seen)
@@ -378,7 +384,7 @@ def update (dag : Dag) (s : St) (src dst : Nat) (doUnpin : Bool) (ctx : Ctx) : S
   else if s.store.idxR.hasAny dst then (s, .toRec)
   else if ctx = .mid then (s, .cancelled)                -- DiffEnumerate
   else if !diffEnum dag s.present (dag.n + 1) src dst then (s, .notfound)
-  else match AMap.find s.store.recs (fromVals.headD 0) with
+  else match RMap.find s.store.recs (fromVals.headD 0) with
     | none => (s, .other)                                 -- loadPin failed
     | some pp =>
       let s := addPin s dst .recursive pp.name
@@ -414,10 +420,14 @@ def pinRecursiveOld (dag : Dag) (s : St) (c : Nat) (fetch : Bool) (name : Nat) (
 
 /-! ### crash and reopen (C23) -/
 
+/-- the index of the other mode -/
+def staleIdx : Mode → Which
+  | .recursive => .D
+  | .direct => .R
+
 /-- rebuildIndexes for one pin record -/
 def rebuildOne (s : St) (id : Nat) (pp : PinRec) : St :=
-  let stale := match pp.mode with | .recursive => Which.D | .direct => Which.R
-  let s := if (s.store.idx stale).hasValue pp.cid id then s.write (.delIdx stale pp.cid id) else s
+  let s := if (s.store.idx (staleIdx pp.mode)).hasValue pp.cid id then s.write (.delIdx (staleIdx pp.mode) pp.cid id) else s
   let s := if (s.store.idx (modeIdx pp.mode)).hasValue pp.cid id then s
            else s.write (.addIdx (modeIdx pp.mode) pp.cid id)
   if pp.name ≠ 0 ∧ !s.store.idxN.hasValue pp.name id then s.write (.addIdx .N pp.name id) else s
